@@ -37,3 +37,30 @@ Proof.
   intros m k i i0 v v0 H. unfold ains. rewrite H. unfold aupd. rewrite N.eqb_refl. reflexivity.
 Qed.
 Print Assumptions C02_first_key_kept.
+
+(* ---- the set relations (HashSet::is_subset / is_superset / is_disjoint / ==) ----
+   The specification the implementation's answers are evaluated against on every run
+   (Model/SetSpec.v rel_check) is the set-theoretic one; in particular every set is a subset and a
+   superset of any set with the same elements. *)
+From Flurry Require Import Model.SetSpec Proofs.SetSpecProofs.
+Theorem C02_set_relations_spec : forall a b,
+  (subset_b a b = true <-> (forall x, In x a -> In x b)) /\
+  (superset_b a b = true <-> (forall x, In x b -> In x a)) /\
+  (disjoint_b a b = true <-> (forall x, In x a -> ~ In x b)) /\
+  (seteq_b a b = true <-> (forall x, In x a <-> In x b)).
+Proof.
+  intros a b. exact (conj (subset_b_spec a b) (conj (superset_b_spec a b)
+                    (conj (disjoint_b_spec a b) (seteq_b_spec a b)))).
+Qed.
+Print Assumptions C02_set_relations_spec.
+
+Theorem C02_equal_sets_are_subsets_of_each_other : forall a b,
+  seteq_b a b = true -> subset_b a b = true /\ superset_b a b = true.
+Proof. exact equal_sets_are_subsets. Qed.
+Print Assumptions C02_equal_sets_are_subsets_of_each_other.
+
+Theorem C02_relation_check_is_exact : forall a b r,
+  rel_check a b r = 0%N <->
+  a_sub r = subset_b a b /\ a_sup r = superset_b a b /\ a_dis r = disjoint_b a b /\ a_eq r = seteq_b a b.
+Proof. exact rel_check_ok. Qed.
+Print Assumptions C02_relation_check_is_exact.
